@@ -66,7 +66,11 @@ def handleFileSrc (hdr : List String) (body : List (List String)) : List String 
            | some _, none => ["monitor C10 FAIL non-sequential-error-on-the-first-block"]
            | none, _ => ["monitor C10 FAIL non-sequential-error-although-the-stored-blocks-are-parent-linked"])
         | _ => []
-      model ++ (m1 ++ m2 ++ m3).take 1
+      -- no out-of-sequence block is ever delivered: consecutive delivered blocks are parent-linked
+      let deliveredBlks := stored.take implIds.length
+      let m4 := if (deliveredBlks.zip (deliveredBlks.drop 1)).all (fun (p : Blk × Blk) => p.2.parent == p.1.id) then []
+                else ["monitor C10 FAIL out-of-sequence-block-delivered"]
+      model ++ (m1 ++ m2 ++ m4 ++ m3).take 1
     | _, _, _ => ["model bad-case"]
   | _ => ["model bad-case"]
 
